@@ -3,7 +3,8 @@
 MC   spec/Drip.tla (drip.Writer + validate closure, error and wound mode), exhaustive at unit scale against
      the abstract layer spec/DripProp.tla.
 RP   one witness walk per transition of the model's state graph is executed on the REAL pwr.ValidatingPool
-     (1 unit = 64KiB/BS bytes); the observed outcome of every step is recorded.
+     (1 unit = 64KiB/BS bytes) - on its own writer, through a pool bowl's entry writer, and (the walk's data
+     copied whole) through the pool bowl's Transpose; the observed outcome of every step is recorded.
 TV   TLC evaluates DripProp after every recorded step of the real pool (verdict) and compares with the model's
      prediction (drift); byte-precise random slicings are validated the same way through digest facts.
 """
@@ -52,14 +53,16 @@ def run(tier):
                 ep = os.path.join(d, "edges-%s-%d.txt" % (bsu, k))
                 with open(ep, "w") as f:
                     f.write("\n".join(edges[k::nsh]) + "\n")
-
-                def job(ep=ep, k=k):
-                    tp = os.path.join(d, "walk-%s-%d.ndjson" % (bsu, k))
-                    vlib.run_driver(binary, ["c18-replay", "-edges", ep, "-out", tp, "-bs", bsu], timeout=3000)
-                    n = vlib.count_lines(tp)
-                    res, viols = vlib.validate_trace("Trace_Drip", "Trace_Drip.cfg", tp, n, "TV walks", timeout=3000)
-                    return tp, n, res, viols
-                jobs.append(job)
+                # the walk on the validating pool's own writer, through a pool bowl's entry writer (the patcher's way
+                # of writing into a pool), and its data copied whole by the pool bowl's Transpose
+                for via in ("pool", "bowl-writer", "bowl-transpose"):
+                    def job(ep=ep, k=k, via=via):
+                        tp = os.path.join(d, "walk-%s-%s-%d.ndjson" % (bsu, via, k))
+                        vlib.run_driver(binary, ["c18-replay", "-edges", ep, "-out", tp, "-bs", bsu, "-via", via], timeout=3000)
+                        n = vlib.count_lines(tp)
+                        res, viols = vlib.validate_trace("Trace_Drip", "Trace_Drip.cfg", tp, n, "TV walks", timeout=3000)
+                        return tp, n, res, viols
+                    jobs.append(job)
             drift_total = 0
             for tp, n, res, viols in vlib.parallel(jobs, nproc=8):
                 total += n
@@ -70,9 +73,9 @@ def run(tier):
                     run.note("spec drift: Drip.tla predicts other step results than the real pool, e.g. %s" % json_short(ex))
                 for ln, clauses in viols:
                     case = vlib.get_line(tp, ln)
-                    run.violation({"clauses": clauses, "mode": case["mode"], "scale": "unit"}, case,
-                                  "real ValidatingPool violates %s on walk mode=%s signed=%s data=%s steps=%s"
-                                  % (clauses, case["mode"], case["signed"], case["data"], [(s["op"], s["n"], s["res"], len(s["inner"])) for s in case["steps"]]))
+                    run.violation({"clauses": clauses, "mode": case["mode"], "scale": "unit", "via": case["via"]}, case,
+                                  "real ValidatingPool (%s) violates %s on walk mode=%s signed=%s data=%s steps=%s"
+                                  % (case["via"], clauses, case["mode"], case["signed"], case["data"], [(s["op"], s["n"], s["res"], len(s["inner"])) for s in case["steps"]]))
                 if total == n:
                     run.sample({"walk": vlib.get_line(tp, 1)})
             run.coverage["walks_bs%d" % bsu] = len(edges)
